@@ -705,6 +705,8 @@ func coqCase(d desc, o outcome, posInt [][3]int64, supHalf [][2]int64, afterInt 
 	return b.String()
 }
 
+func ldexp(v float64, e int) float64 { return math.Ldexp(v, e) }
+
 func toUnit(v float64, shift int) (int64, bool) {
 	u := math.Ldexp(v, -shift)
 	if u != math.Trunc(u) || math.Abs(u) > (1<<53) {
@@ -801,6 +803,7 @@ func runCase(run *hx.Run, d desc, kind string) {
 	if c.GoFail == "" && d.Dup {
 		run.Count("repeated-points(coverage not judged)")
 	}
+	noCover := false
 	if c.GoFail == "" && !d.Dup {
 		_, orphan, maxCav := faithful(ps)
 		if orphan {
@@ -816,9 +819,16 @@ func runCase(run *hx.Run, d desc, kind string) {
 		default:
 			run.Count("max-cavity:33+")
 		}
-		complete, key, missing := classify(ps, o.tris)
+		complete, key, missing := true, "", 0
+		if len(ps) <= 150 {
+			complete, key, missing = classify(ps, o.tris)
+		} else {
+			noCover = true // the brute-force Delaunay triangulation is O(n^4): the four conjuncts only
+		}
 		c.FailKey = key
 		switch {
+		case noCover:
+			run.Count("coverage-not-judged(more than 150 points)")
 		case complete:
 			run.Count("complete")
 		case key != "":
@@ -861,7 +871,7 @@ func runCase(run *hx.Run, d desc, kind string) {
 	if c.GoFail != "" {
 		c.Coq = coqCase(desc{Pts: d.Pts}, outcome{}, nil, nil, nil, true, true, false)
 	} else {
-		c.Coq = coqCase(d, o, posInt, supHalf, afterInt, true, !known && !d.Dup, gpClaim)
+		c.Coq = coqCase(d, o, posInt, supHalf, afterInt, true, !known && !d.Dup && !noCover, gpClaim)
 	}
 	run.Count("gen:" + d.Gen)
 	switch n := len(ps); {
@@ -873,8 +883,10 @@ func runCase(run *hx.Run, d desc, kind string) {
 		run.Count("n:11-40")
 	case n <= 100:
 		run.Count("n:41-100")
+	case n <= 256:
+		run.Count("n:101-256")
 	default:
-		run.Count("n:101+")
+		run.Count("n:257+")
 	}
 	if d.Model {
 		run.Count("model-compared")
@@ -903,6 +915,13 @@ func main() {
 	log.SetOutput(io.Discard) // fillHole logs on every winding flip
 	run := hx.ParseFlags("C20", "Check.C20")
 	for _, in := range run.Inputs() {
+		if in.Kind == "pred" {
+			var pd predDesc
+			if err := json.Unmarshal(in.Raw, &pd); err == nil {
+				runPred(run, pd)
+			}
+			continue
+		}
 		var d desc
 		if err := json.Unmarshal(in.Raw, &d); err != nil {
 			continue
@@ -970,6 +989,17 @@ func main() {
 				break
 			}
 		}
+	}
+	{ // the exported predicates on their own (own PRNG stream: the point-set streams below are unchanged)
+		pr := hx.NewRng(run.Seed ^ 0x5eed20)
+		for i := 0; i < 24+run.N/4; i++ {
+			runPred(run, genPred(pr))
+		}
+	}
+	{ // one input with more than 256 points (own PRNG stream)
+		d := genHuge(hx.NewRng(run.Seed ^ 0x4875))
+		d.Spare = 3
+		runCase(run, d, "pts")
 	}
 	r := hx.NewRng(run.Seed)
 	maxBig := 200
